@@ -131,7 +131,10 @@ def dfxp_strategy(tier):
                          "nodes": nodes, "style": {}, "layout": lc})
         return {"set": {"langs": [{"code": "en", "layout": lang_layout, "cues": cues}],
                         "styles": {}, "layout": None},
-                "fit": draw(st.booleans()), "reuse": draw(st.integers(0, 3)) == 0}
+                "fit": draw(st.booleans()), "reuse": draw(st.integers(0, 3)) == 0,
+                # the language option: absent, the language of the set, or one it does not have
+                # (then everything is written) - keyword or positional
+                "force": draw(st.sampled_from([None, None, "en", "zz"])), "force_pos": draw(st.booleans())}
     return build()
 
 
@@ -200,7 +203,11 @@ def check_dfxp(case, rec):
             pass
         rec.label("reused-objects")
     with must("DFXPWriter.write"):
-        out = writer.write(cs)
+        if case.get("force"):
+            out = writer.write(cs, case["force"]) if case.get("force_pos") else writer.write(cs, force=case["force"])
+            rec.label("force-option")
+        else:
+            out = writer.write(cs)
     with must("DFXPReader.read of DFXPWriter output"):
         back = reader.read(out)
     lang = m["langs"][0]
